@@ -136,7 +136,7 @@ TamperAll(how) ==
   /\ rtf.kid >= 0 \/ \E k \in KeysK : fs[k].kid >= 0
   /\ fs' = [k \in KeysK |-> IF fs[k].kid >= 0 THEN [fs[k] EXCEPT !.dmg = TRUE] ELSE fs[k]]
   /\ rtf' = IF rtf.kid >= 0 THEN [rtf EXCEPT !.dmg = TRUE] ELSE rtf
-  /\ st' = DoTamperAll(st)
+  /\ st' = DoTamperAll(st, {}, FALSE)
   /\ lastj' = TRUE
   /\ hist' = Append(hist, Op("tamper_all", 0, 0, how, 0, Pred(TRUE, -1)))
   /\ UNCHANGED <<mode, nctr, used>>
